@@ -129,6 +129,31 @@ func recordFields(args []string) int {
 		evs = append(evs, ev)
 	} else {
 		rng := rand.New(rand.NewSource(*seed))
+		// wide and shallow formulas: long argument / element lists of composite items and a long else-if ladder
+		// (nothing in the property bounds the width of a list; only nesting costs stack)
+		wide := func(item func(k int) string, sep string, cnt int) string {
+			parts := make([]string, cnt)
+			for k := range parts {
+				parts[k] = item(k)
+			}
+			return strings.Join(parts, sep)
+		}
+		members := []string{"m.k", "m.s", "m.m.k", "st.A", "tm.o", "m.n"}
+		ladder := wide(func(k int) string { return fmt.Sprintf("z == %d ? m.k + %d : ", k+1, k) }, "", 45) + "st.P"
+		for _, text := range []string{
+			"[" + wide(func(k int) string { return members[k%len(members)] }, ", ", 130) + "]",
+			"max(" + wide(func(k int) string { return fmt.Sprintf("m.k + %d", k) }, ", ", 125) + ")",
+			"min(" + wide(func(k int) string { return fmt.Sprintf("(i * %d)", k) }, ", ", 110) + ", st.P)",
+			ladder,
+			wide(func(k int) string { return fmt.Sprintf("(m.k + %d)", k) }, " + ", 140) + " + j",
+		} {
+			ev, err := fieldsEvent(text)
+			if err != nil {
+				fmt.Fprintln(os.Stderr, "wide formula:", err)
+				return 2
+			}
+			evs = append(evs, ev)
+		}
 		for len(evs) < *n {
 			g := &progGen{rng: rng}
 			text := g.gen(2 + rng.Intn(3))
